@@ -28,13 +28,14 @@ func (eng *Engine) verifyFunction(fn *ssa.Function, con *Contract, pkg *PkgInfo)
 	if con != nil {
 		fc.nowrap = con.Nowrap
 	}
-	eng.emitAxioms(vc)
 	fc.findLoops()
 	init := &State{Heap: map[string]Term{}, Gh: map[string]Term{}}
 	init.NA = vc.sc.declare("NA@0", "Int")
 	fc.na0 = init.NA
 	vc.sc.assert(app(">", init.NA, "0"))
 	fc.old = init.clone()
+	vc.st = init
+	fc.emitAxioms()
 
 	// parameters
 	entry := fn.Blocks[0]
@@ -281,6 +282,7 @@ func (fc *FnCtx) execInstr(in ssa.Instruction, st *State) {
 		p := fc.val(in.Addr)
 		fc.nilCheck(p, in, "")
 		fc.frameCheck(p, in.Val.Type(), in, st)
+		fc.storeHooks(in, st)
 		vc.store(st, p, in.Val.Type(), fc.val(in.Val))
 	case *ssa.Slice:
 		fc.slice(in, st)
